@@ -483,7 +483,11 @@ def run(run):
                     tf.hyphen_neutral(x) for l in tf.body_lines(doc.lines, w[0], w[1]) for x in l.split())):
                 break
         else:
-            raise fw.InfraError("no hyphen-neutral wrapped base document generated")
+            if w is not None and not readable(base, cache):
+                # twenty well-formed wrapped documents in a row that the implementation cannot read: that is a behaviour of the
+                # code under test, not of the harness
+                run.fail("generated-wrapped-document-unreadable", {"base": base, "ts": []}, {"read": canon(base, ENGINES[0], cache)[0]})
+            continue
         n = d * r
         for width in range(1, n + 1):
             ts = [["rewrap", w[0], w[1], n, [width] * (n // width + 1)]]
